@@ -366,83 +366,18 @@ func (l *L1) effN() int {
 	return l.Cube.N
 }
 
-// errorsIs: identity, or membership for a multierr.
-func (l *L1) errorsIs(p *Path, err, target Value) *Term {
-	e := l.E
-	B := e.B
-	res := B.And(e.valEq(err, target), B.Not(B.Eq(target[0], B.BV(16, 0))))
-	isMulti := B.Eq(err[0], B.BV(16, TagMultiErr))
-	if !isMulti.IsFalse() {
-		n, items := l.multiItems(p, err)
-		m := B.False
-		for i, it := range items {
-			m = B.Or(m, B.And(B.Ult(B.BV(8, uint64(i)), n), e.valEq(it, target)))
-		}
-		res = B.Or(res, B.And(isMulti, m))
-	}
-	return res
-}
-
 const multiCap = 6
 
-func multiLayout() []int {
-	lay := []int{8}
-	for i := 0; i < multiCap; i++ {
-		lay = append(lay, 16, 64)
-	}
-	return lay
+func (l *L1) errorsIs(p *Path, err, target Value) *Term {
+	return l.E.ErrorsIs(p, err, target, multiCap)
 }
 
-// multiItems views an error as a list: nil -> [], multierr -> items, other -> [err].
 func (l *L1) multiItems(p *Path, err Value) (*Term, []Value) {
-	e := l.E
-	B := e.B
-	isNil := B.Eq(err[0], B.BV(16, 0))
-	isMulti := B.Eq(err[0], B.BV(16, TagMultiErr))
-	var obj Value
-	if isMulti.IsFalse() {
-		obj = e.Zero(multiLayout())
-	} else {
-		ptr := B.Ite(isMulti, err[1], B.BV(64, 0))
-		obj, _ = e.LoadVal(p, ptr, multiLayout())
-	}
-	n := B.Ite(isNil, B.BV(8, 0), B.Ite(isMulti, obj[0], B.BV(8, 1)))
-	items := make([]Value, multiCap)
-	for i := 0; i < multiCap; i++ {
-		it := Value{obj[1+2*i], obj[2+2*i]}
-		if i == 0 {
-			it = e.iteVal(isMulti, it, err)
-		}
-		items[i] = it
-	}
-	return n, items
+	return l.E.MultiItems(p, err, multiCap)
 }
 
-// multierrAppend mirrors go.uber.org/multierr.Append: nil-absorbing, flattening.
 func (l *L1) multierrAppend(p *Path, ic *ICall, left, right Value) Value {
-	e := l.E
-	B := e.B
-	ln, li := l.multiItems(p, left)
-	rn, ri := l.multiItems(p, right)
-	lnil := B.Eq(left[0], B.BV(16, 0))
-	rnil := B.Eq(right[0], B.BV(16, 0))
-	bound := l.Cube.J()
-	ptr := e.allocPool(p, "multierr|"+e.siteKey(p, ic.Site, ""), multiLayout(), ObjPlain, "multierr", bound, nil)
-	total := B.Add(ln, rn)
-	e.RaiseFlag(p, "unwind", B.And(B.Not(lnil), B.Not(rnil), B.Ult(B.BV(8, multiCap), total)))
-	obj := Value{total}
-	for i := 0; i < multiCap; i++ {
-		// item i = i < ln ? li[i] : ri[i-ln]
-		it := Value{B.BV(16, 0), B.BV(64, 0)}
-		for sh := 0; sh <= i; sh++ { // ln == sh -> ri[i-sh]
-			it = e.iteVal(B.Eq(ln, B.BV(8, uint64(sh))), ri[i-sh], it)
-		}
-		it = e.iteVal(B.Ult(B.BV(8, uint64(i)), ln), li[i], it)
-		obj = append(obj, it...)
-	}
-	e.StoreVal(p, ptr, obj)
-	comb := Value{B.BV(16, TagMultiErr), ptr}
-	return e.iteVal(lnil, right, e.iteVal(rnil, left, comb))
+	return l.E.MultiAppend(p, ic, left, right, multiCap)
 }
 
 func (l *L1) newTicker(p *Path, ic *ICall) {
